@@ -101,6 +101,9 @@ type EnvOptions struct {
 	DB dbm.DB
 	// SkipInitChain builds the app without running InitChain (used by genesis import checks).
 	SkipInitChain bool
+	// InitialHeight is the chain's first block height (default 1). Heights are keys of every due-queue; a chain
+	// that starts just below a byte boundary (253) crosses 255 -> 256 within a few blocks.
+	InitialHeight int64
 	// KeepHostClockGenesis leaves the htlc default genesis' previous_block_time (= time.Now() of the
 	// process, see modules/htlc/types/params_legacy.go) untouched. By default the harness pins it to
 	// GenesisTime so that searches are reproducible; the determinism check (C11) turns this off.
@@ -194,6 +197,10 @@ func NewEnv(opts EnvOptions) *Env {
 	for mod, f := range opts.GenesisMutators {
 		gs[mod] = f(e.Cdc, gs[mod])
 	}
+	ih := opts.InitialHeight
+	if ih == 0 {
+		ih = 1
+	}
 	stateBytes, err := json.Marshal(gs)
 	if err != nil {
 		panic(err)
@@ -201,14 +208,14 @@ func NewEnv(opts EnvOptions) *Env {
 	if _, err := e.App.InitChain(&abci.RequestInitChain{
 		ChainId:         ChainID,
 		Time:            GenesisTime,
-		InitialHeight:   1,
+		InitialHeight:   ih,
 		Validators:      []abci.ValidatorUpdate{},
 		ConsensusParams: simtestutil.DefaultConsensusParams,
 		AppStateBytes:   stateBytes,
 	}); err != nil {
 		panic(fmt.Errorf("InitChain: %w", err))
 	}
-	hdr := cmtproto.Header{ChainID: ChainID, Height: 1, Time: GenesisTime, AppHash: fixedHash("apphash", 0)}
+	hdr := cmtproto.Header{ChainID: ChainID, Height: ih, Time: GenesisTime, AppHash: fixedHash("apphash", 0)}
 	e.Root = e.App.BaseApp.NewContextLegacy(false, hdr).
 		WithBlockGasMeter(storetypes.NewInfiniteGasMeter()).
 		WithGasMeter(storetypes.NewInfiniteGasMeter()).
